@@ -66,7 +66,12 @@ func (a *sessAEAD) Open(dst, nonce, ct, ad []byte) ([]byte, error) {
 	return append(dst, rec.pt...), nil
 }
 
+// number of AEAD instances created (the transport must create one per packet:
+// SANSE is a SESSION mode, an instance remembers every message it processed)
+var sessCreated int
+
 func sessNewSANSE(key []byte) (cipher.AEAD, error) {
+	sessCreated++
 	a := &sessAEAD{keyLen: len(key)}
 	copy(a.key[:], key)
 	return a, nil
